@@ -1,4 +1,6 @@
 """C10 - Validation accepts exactly the well-defined models."""
+import copy
+
 from hypothesis import strategies as st
 
 from vf import build, oracle, strategies as S
@@ -10,7 +12,7 @@ RULE = ("Part 'adversarial': Hypothesis generates models whose leaf AND sub-prop
         "('a','b','ab','bc','abc','a1','1','A','B','') so reuse is the norm; leaf bounds from easily confused families (equal "
         "sums (0,3)/(1,2), (0,0)/(-1,1); equal hash(lo)+hash(hi) under hash(-1)==-2; shifted/swapped pairs); compounds that "
         "reuse an explicit id with different sign/value/children; generated-id coincidences (Any('ab','c') vs Any('a','bc')); "
-        "self/mutual references; the same child twice; by-reference atoms; identical shared sub-propositions. Assertion: "
+        "self/mutual references; the same child twice; by-reference atoms; identical shared sub-propositions; copies of a sub-proposition that agree at their top but differ further down. Assertion: "
         "errors()==[] implies the independent predicate well_defined (acyclic id graph, no child listed twice, single "
         "definition per id). Part 'tree': trees with pairwise distinct ids must be accepted. Part 'sharing': models built by "
         "the constructive generator (consistent leaf pool, unique explicit ids, shared sub-propositions by reference) that "
@@ -38,7 +40,19 @@ def _adv_node(draw, depth, made):
         elif r <= 8:
             children.append(_adv_node(draw, depth - 1, made))
         elif r == 9 and made:
-            children.append(draw(st.sampled_from(made)))          # identical copy of an earlier sub-proposition
+            c = draw(st.sampled_from(made))
+            if draw(st.booleans()):
+                # a copy that looks the same at its top (same id, sign, value, child ids) but is defined differently
+                # further down: one descendant leaf gets other bounds, or one descendant node another child
+                c = copy.deepcopy(c)
+                below = [n for ch in c.get("c", []) for n in oracle.spec_nodes(ch)]
+                if below:
+                    t = below[draw(st.integers(0, len(below) - 1))]
+                    if t["k"] == "leaf":
+                        t["b"] = list(draw(st.sampled_from(BOUNDS)))
+                    elif t.get("c"):
+                        t["c"] = t["c"][:-1] + [{"k": "leaf", "id": draw(st.sampled_from(IDS)), "b": [0, 1]}]
+            children.append(c)          # (mutated) copy of an earlier sub-proposition
         elif r == 10 and children:
             children.append(children[draw(st.integers(0, len(children) - 1))])   # same child twice
         else:
